@@ -64,6 +64,21 @@ pub fn lib(c: &FpCase) -> SearchResult {
     })
 }
 
+/// The same search with a workload that is 0 at r = 0 (the natural shape of a request-bound
+/// function): the statement evaluates the workload at max(r, 1) only, so the result must not
+/// depend on the value at 0.
+pub fn lib_zero_at_zero(c: &FpCase) -> SearchResult {
+    let sup = c.supply.build();
+    let t = c.table.clone();
+    fixed_point::search_with_offset(&sup, Offset::from(c.offset), d(c.limit), &move |r| {
+        if du(r) == 0 {
+            s(0)
+        } else {
+            s(w(&t, du(r)))
+        }
+    })
+}
+
 pub fn lib_search(c: &FpCase) -> SearchResult {
     let sup = c.supply.build();
     let t = c.table.clone();
@@ -122,6 +137,23 @@ pub fn run(ctx: &mut Ctx) -> (String, Value, Vec<String>) {
                     evals.fetch_add(1, Ordering::Relaxed);
                     if want.map(|r| r > t[0]).unwrap_or(false) {
                         nontrivial.fetch_add(1, Ordering::Relaxed);
+                    }
+                    {
+                        // w(0) = 0 < w(1): the least solution is defined through w(max(r, 1))
+                        let got0 = catch(|| lib_zero_at_zero(&c));
+                        evals.fetch_add(1, Ordering::Relaxed);
+                        let differs = match (&got, &got0) {
+                            (Ok(x), Ok(y)) => format!("{:?}", x) != format!("{:?}", y),
+                            (Err(_), Err(_)) => false,
+                            _ => true,
+                        };
+                        if differs {
+                            local_bad.push((
+                                "fixed_point::search_with_offset#depends-on-workload-at-zero".to_string(),
+                                format!("search_with_offset gives {:?} when the workload is 0 at r = 0 and {:?} when it is w(1) there (the least solution is defined through w(max(r, 1)) only) on {:?}", got0, got, c),
+                                c.clone(),
+                            ));
+                        }
                     }
                     match &got {
                         Err(e) => local_bad.push((
@@ -362,9 +394,14 @@ pub fn replay(case: &Value) -> bool {
     let rs = RefSupply::new(&c.supply, 400);
     let want = oracle(&rs, &c);
     let got = catch(|| lib(&c));
-    println!("replay: library {:?} / least solution {:?}", got, want);
-    match got {
+    let got0 = catch(|| lib_zero_at_zero(&c));
+    println!("replay: library {:?} / with a workload that is 0 at r = 0: {:?} / least solution {:?}", got, got0, want);
+    let bad0 = match got0 {
         Ok(g) => !same(&g, &want),
+        Err(_) => true,
+    };
+    match got {
+        Ok(g) => !same(&g, &want) || bad0,
         Err(_) => true,
     }
 }
